@@ -42,7 +42,7 @@ def track_recv_phase(key):
 
 
 # ---------------------------------------------------------------- C04-F
-@rule("C04", "C04-F", 2, "finalisation is reachable only in the receive-data phase (guarded reachability over the whole impl)", also=("C10", "C13"))
+@rule("C04", "C04-F", 2, "finalisation is reachable only in the receive-data phase (guarded reachability over the whole impl)", also=("C01", "C10", "C13"))
 def c04_f(ctx):
     fns = _need(impl_fns(ctx, RECV), "impl RecvTransaction", "C04-F")
     it = inter(ctx, RECV, track_recv_phase, "phase")
@@ -459,7 +459,7 @@ def c01_k(ctx):
 
 
 # ---------------------------------------------------------------- C01-R
-@rule("C01", "C01-R", 1, "what is recorded as received is what was written: same offset and same bytes go to seek/write and to the segment list")
+@rule("C01", "C01-R", 1, "what is recorded as received is what was written: same offset and same bytes go to seek/write and to the segment list, and the segment is recorded (and counted) only after it was written", also=("C09", "C20"))
 def c01_r(ctx):
     f = ctx.one("C01-R", "RecvTransaction::store_file_data")
     eb = ExprBuilder(ctx.prog, f, user_stop=True)
@@ -1595,6 +1595,111 @@ def c04_h2(ctx):
             yield bad("C04-H2", key, at(f), "a path through get_handle reaches its exit with no staging file held and none created (state %s): file data reaching that state returns NoFile, which ends the open receive task" % world_str(offending[1]))
     if n == 0:
         raise Anchor("C04-H2", "RecvTransaction::get_handle")
+
+
+# ================================================================ C10-K11
+@rule("C10", "C10-K11", 2, "a user cancel always takes effect: every return of the public cancel of either transaction lies behind the write of the Cancelled phase (directly or in a callee) - no phase, however late, in which the request is silently dropped")
+def c10_k11(ctx):
+    n = 0
+    for adt, fld in ((RECV, "self.recv_state"), (SEND, "self.send_state")):
+        fns = impl_fns(ctx, adt)
+        setters = set()
+        for g, b_, j_, s_, ps_ in field_writes(fns, fld):
+            if ps_ != fld or j_ < 0 or g.name == "new":
+                continue
+            e = simp(ExprBuilder(ctx.prog, g).rvalue(s_["rv"]))
+            if e is not None and e[0] == "agg" and e[3] == "Cancelled":
+                setters.add(g.norm)
+        direct = set(setters)
+        grew = True
+        while grew:
+            grew = False
+            for g in fns:
+                if g.norm in setters:
+                    continue
+                # a caller counts only when the call is unconditional in it: every path from its entry to a return passes the call
+                calls = [b_ for b_, t_ in g.all_calls() if any(h.norm in setters for h in ctx.prog.call_targets(t_))]
+                if calls and not any(g.blocks[x]["term"]["k"] == "return" for x in g.reachable(0, avoid=calls)):
+                    setters.add(g.norm)
+                    grew = True
+        for f in fns:
+            if f.name != "cancel":
+                continue
+            n += 1
+            key = "%s::cancel" % short(adt)
+            must = []
+            for b in f.live_blocks():
+                blk = f.blocks[b]
+                if f.norm in direct and any(s_["k"] == "assign" and f.place_str(s_["place"]) == fld for s_ in blk["stmts"]):
+                    must.append(b)
+                t_ = blk["term"]
+                if t_["k"] == "call" and any(h.norm in setters and h.norm != f.norm for h in ctx.prog.call_targets(t_)):
+                    must.append(b)
+            leak = [x for x in f.reachable(0, avoid=must) if f.blocks[x]["term"]["k"] == "return"]
+            if must and not leak:
+                yield ok("C10-K11", key, at(f), "every return lies behind the write of %s = Cancelled" % fld)
+            else:
+                yield bad("C10-K11", key, at(f), "a path through cancel returns without entering the Cancelled phase: in that state a user's cancel request is dropped (no cancel condition reported, nothing sent to the peer)")
+    if n < 2:
+        raise Anchor("C10-K11", "RecvTransaction::cancel and SendTransaction::cancel")
+
+
+# ================================================================ C07-S12
+@rule("C07", "C07-S12", 1, "the source file stays open from the first segment to the end of the transaction: the sender's file handle is never dropped or emptied outside its constructor and shutdown (the handle carries the first-pass cursor; a handle re-opened lazily starts again at offset 0 and the first pass tiles the file twice)", also=("C19",))
+def c07_s12(ctx):
+    fns = impl_and_closures(ctx, SEND)
+    n = 0
+    for f, b, j, s, ps in field_writes(fns, "self.file_handle"):
+        if ps != "self.file_handle":
+            continue
+        n += 1
+        if f.name in ("new", "shutdown"):
+            continue
+        key = "%s:self.file_handle<-None" % f.name
+        if j >= 0:
+            e = simp(ExprBuilder(ctx.prog, f).rvalue(s["rv"]))
+            if e is not None and e[0] == "agg" and e[3] == "None":
+                yield bad("C07-S12", key, at(f, s["span"]["line"]), "the sender drops its source file handle in %s: the next segment re-opens the file at offset 0 and the first pass repeats what was already sent" % f.name)
+                continue
+        yield ok("C07-S12", "%s:self.file_handle<-handle" % f.name, at(f, s["span"]["line"]), "stores a handle")
+    for f, b, t, d, r in call_sites(fns, lambda d_, r_: (r_ or d_).endswith("Option::<T>::take") or (r_ or d_).endswith("Option::take") or "mem::take" in (r_ or d_) or "mem::replace" in (r_ or d_), ctx.prog):
+        if f.name in ("new", "shutdown"):
+            continue
+        e = ExprBuilder(ctx.prog, f).call(b, t)
+        if "self.file_handle" in expr_str(e):
+            yield bad("C07-S12", "%s:self.file_handle.take" % f.name, at(f, t["span"]["line"]), "the sender takes its source file handle out of the transaction in %s" % f.name)
+    if n == 0:
+        raise Anchor("C07-S12", "writes of SendTransaction.file_handle")
+
+
+# ================================================================ C19-S
+@rule("C19", "C19-S", 2, "suspend stops every limit timer of the transaction, in every mode and phase: each return of suspend lies behind a pause of the positive-ACK and inactivity counters (and of the NAK counter at the receiver) - an unacknowledged receiver with closure still supervises its Finished PDU with the positive-ACK timer")
+def c19_s(ctx):
+    n = 0
+    for adt, counters in ((RECV, ("ack", "nak", "inactivity")), (SEND, ("ack", "inactivity"))):
+        for f in impl_fns(ctx, adt):
+            if f.name != "suspend":
+                continue
+            n += 1
+            eb = ExprBuilder(ctx.prog, f)
+            for c in counters:
+                key = "%s::suspend:%s" % (short(adt), c)
+                must = []
+                for b, t in f.all_calls():
+                    d, r, _ = ctx.prog.callee_of(t)
+                    nm = r or d or ""
+                    if not (nm.endswith("::pause") or nm.endswith("::pause_all") or "pause" in nm.rsplit("::", 1)[-1]):
+                        continue
+                    es = expr_str(eb.call(b, t))
+                    if "self.timer.%s" % c in es or (("self.timer" in es) and ("self.timer." not in es)):
+                        must.append(b)
+                leak = [x for x in f.reachable(0, avoid=must) if f.blocks[x]["term"]["k"] == "return"]
+                if must and not leak:
+                    yield ok("C19-S", key, at(f), "paused on every path")
+                else:
+                    yield bad("C19-S", key, at(f), "a path through suspend returns without pausing the %s counter: it keeps ticking through the suspension and can declare its limit fault while suspended" % c)
+    if n < 2:
+        raise Anchor("C19-S", "RecvTransaction::suspend and SendTransaction::suspend")
 
 
 # ================================================================ C01-P
